@@ -258,6 +258,8 @@ impl Slots {
                     // date to it.
                     let active_addr = who.active_addr.load(SeqCst);
                     if active_addr != storage_addr {
+                        #[cfg(arc_swap_verif)]
+                        verif_rt::probe(verif_rt::probes::HELP_ADDR_MISMATCH, true);
                         // Acquire for the same reason as on the top.
                         let new_control = who.control.load(SeqCst);
                         if new_control == control {
